@@ -64,8 +64,17 @@ AddSubtask(t) == /\ t \notin Range(subs)
                  /\ UNCHANGED cons
 
 \* add_constraint: stored unless already present
-AddConstraint(c) == /\ cons' = IF c \in Range(cons) THEN cons ELSE Append(cons, c)
+Stored(cs, c) == IF c \in Range(cs) THEN cs ELSE Append(cs, c)
+AddConstraint(c) == /\ cons' = Stored(cons, c)
                     /\ UNCHANGED subs
+
+\* macro step: the sequential composition AddSubtask(ts[1]) ; ... ; AddConstraint(cs[1]) ; ...
+\* (used by the trace judge for bulk cases that are observed only once, after the last call)
+RECURSIVE StoredAll(_, _, _)
+StoredAll(cs, new, i) == IF i > Len(new) THEN cs ELSE StoredAll(Stored(cs, new[i]), new, i + 1)
+Build(ts, cs) == /\ \A i \in DOMAIN ts : ts[i] \notin Range(subs) /\ \A j \in 1..(i - 1) : ts[j] # ts[i]
+                 /\ subs' = subs \o ts
+                 /\ cons' = StoredAll(cons, cs, 1)
 
 \* partial_order() / total_order() do not change the object
 Query == UNCHANGED vars
@@ -150,8 +159,9 @@ Analysis(T, C) ==
    IF ~Qualitative(T, C) THEN [qual |-> FALSE, P |-> {}, nlin |-> 0, s |-> <<>>, chain |-> {}]
    ELSE LET P == Precs(C)
             L == LinExts(T, P)
-            s == IF Cardinality(L) = 1 THEN AsSeq(T, CHOOSE pos \in L : TRUE) ELSE <<>>
-        IN [qual |-> TRUE, P |-> P, nlin |-> Cardinality(L), s |-> s, chain |-> Range(ConsecutivePairs(s))]
+        IN IF Cardinality(L) # 1 THEN [qual |-> TRUE, P |-> P, nlin |-> Cardinality(L), s |-> <<>>, chain |-> {}]
+           ELSE LET s == AsSeq(T, CHOOSE pos \in L : TRUE) IN
+                [qual |-> TRUE, P |-> P, nlin |-> 1, s |-> s, chain |-> Range(ConsecutivePairs(s))]
 
 \* the unspecified zone: exactly one linear ordering, and the given precedences are not just its chain
 ZoneA(A) == A.qual /\ A.nlin = 1 /\ A.P # A.chain
